@@ -528,6 +528,27 @@ pub fn session(rng: &mut StdRng, ctx: &Ctx, start: &Board, nops: usize, profile:
     evs
 }
 
+/// Engine S2I: executes a behaviour generated by TLC from the system specification and compares the
+/// abstract state the model expects (current position, chain length) after every action.
+pub fn exec_script(script: &Value) -> Vec<Value> {
+    let mut c: Option<Chain> = None;
+    let mut out = Vec::new();
+    out.push(exec(&mut c, &json!({"op": "new", "pos": script["start"]})));
+    let ops = script["ops"].as_array().unwrap();
+    for op in ops {
+        let mut ev = exec(&mut c, op);
+        if !op["expect"].is_null() {
+            let ex = &op["expect"];
+            let ok = ev["obs"]["last"]["pos"] == ex["pos"] && ev["obs"]["len"] == ex["len"]
+                && (ex["res"].is_null() || ev["res"] == ex["res"]);
+            ev["s2i_match"] = json!(ok);
+            ev.as_object_mut().unwrap().remove("expect");
+        }
+        out.push(ev);
+    }
+    out
+}
+
 /// Re-executes the operations embedded in recorded events.
 pub fn reexec(events: &[Value]) -> Vec<Value> {
     let mut c: Option<Chain> = None;
